@@ -57,13 +57,13 @@ type cBuilder struct {
 }
 
 type cEnv struct {
-	brk, cont  int            // innermost loop
+	brk, cont  int               // innermost loop
 	labels     map[string][2]int // label -> (break, continue)
-	ret        int            // where `return` goes (deferred chain / caller continuation)
-	retBool    *[2]int        // inside a bool helper: return true / return false
-	selectExit int            // unlabeled break inside a select arm
+	ret        int               // where `return` goes (deferred chain / caller continuation)
+	retBool    *[2]int           // inside a bool helper: return true / return false
+	selectExit int               // unlabeled break inside a select arm
 	inSelect   bool
-	recvVar    string         // the variable DECLARED by the receive that dominates this point (what `enq(&x, mq)` may take the address of)
+	recvVar    string // the variable DECLARED by the receive that dominates this point (what `enq(&x, mq)` may take the address of)
 }
 
 func (b *cBuilder) add(n *cNode) int {
@@ -679,6 +679,20 @@ func cfgFamily(files []string) string {
 				}
 			}
 			cfail(st, "unsupported statement %s", src(st))
+		}
+		// the queue may be created by the pump itself, at the top level of its body (creating it has no other effect and
+		// nothing before the statement can mention it, so where it stands among the leading statements does not matter)
+		if body != nil && b.mq == "" {
+			for k, st := range body.List {
+				x, ok := st.(*ast.AssignStmt)
+				if !ok || x.Tok != token.DEFINE || len(x.Lhs) != 1 || len(x.Rhs) != 1 || !strings.HasPrefix(src(x.Rhs[0]), "newq[") {
+					continue
+				}
+				b.mq = src(x.Lhs[0])
+				rest := append(append([]ast.Stmt{}, body.List[:k]...), body.List[k+1:]...)
+				body = &ast.BlockStmt{Lbrace: body.Lbrace, List: rest, Rbrace: body.Rbrace}
+				break
+			}
 		}
 		if body == nil || b.mq == "" || caps[egName] == "" || caps[inName] == "" {
 			cfail(fd, "pump goroutine, queue or one of the two channels not found")
